@@ -295,7 +295,15 @@ pub fn c13(ctx: &mut Ctx) {
             let old = image::get(pi, &l.path).unwrap();
             let f = match old {
                 Value::String(s) => Fault::Set { path: path.clone(), value: image::felt_hex(&(Felt::from_hex(s).unwrap() + Felt::ONE)) },
-                Value::Number(n) => Fault::Set { path: path.clone(), value: (n.as_u64().unwrap() + 1).to_string() },
+                Value::Number(n) => {
+                    // machine-word fields: also a change in the high half only (2^32) and the top bit
+                    let cur = n.as_u64().unwrap();
+                    faults.push((format!("field-high-bits:{cls}"), vec![Fault::Set { path: path.clone(), value: (cur ^ (1u64 << 32)).to_string() }]));
+                    if rng.chance(1, 8) {
+                        faults.push((format!("field-high-bits:{cls}"), vec![Fault::Set { path: path.clone(), value: (cur ^ (1u64 << 63)).to_string() }]));
+                    }
+                    Fault::Set { path: path.clone(), value: (cur + 1).to_string() }
+                }
                 _ => continue,
             };
             faults.push((format!("field:{cls}"), vec![f]));
